@@ -648,6 +648,12 @@ class KnownValue(Value):
             return f"function {get_fully_qualified_name(self.val)!r}"
         elif isinstance(self.val, type):
             return f"type {get_fully_qualified_name(self.val)!r}"
+        elif isinstance(self.val, (set, frozenset)) and self.val:
+            # repr() of a set lists the elements in hash order, which differs between runs
+            elements = ", ".join(map(repr, stable_set_order(self.val)))
+            if isinstance(self.val, frozenset):
+                return f"Literal[frozenset({{{elements}}})]"
+            return f"Literal[{{{elements}}}]"
         else:
             return f"Literal[{self.val!r}]"
 
@@ -664,6 +670,19 @@ class KnownValue(Value):
                 return self
             return TypedValue(type(val.val))
         return val.simplify()
+
+
+def stable_set_order(elements: Iterable[object]) -> list[object]:
+    """The elements of a literal set in an order that does not depend on hashing.
+
+    A set has no order, but whatever is derived from its elements (the members of a
+    union, the text of an error) should be the same on every run.
+
+    """
+    try:
+        return sorted(elements, key=lambda elt: (type(elt).__qualname__, repr(elt)))
+    except Exception:
+        return list(elements)
 
 
 def get_fully_qualified_name(obj: Union[FunctionType, type]) -> str:
@@ -3324,7 +3343,12 @@ def replace_known_sequence_value(value: Value) -> Value:
     if isinstance(value, TypeVarValue):
         return replace_known_sequence_value(value.get_fallback_value())
     if isinstance(value, KnownValue):
-        if isinstance(value.val, (list, tuple, set, frozenset)):
+        if isinstance(value.val, (set, frozenset)):
+            return SequenceValue(
+                type(value.val),
+                [(False, KnownValue(elt)) for elt in stable_set_order(value.val)],
+            )
+        if isinstance(value.val, (list, tuple)):
             return SequenceValue(
                 type(value.val), [(False, KnownValue(elt)) for elt in value.val]
             )
